@@ -151,6 +151,9 @@ pub const GARBAGE_KINDS: &[&str] =
 
 /// (setup forms, loop form with the iteration count N substituted, per-iteration top-level form if any)
 fn garbage_program(kind: &str, live: usize, n: usize) -> (Vec<String>, Vec<String>) {
+    // one burst allocates and walks 600 cells (about 5000 instructions): 1/50 of the iterations gives the allocation
+    // volume of the other kinds and stays inside the instruction budget of the watchdog
+    let n = if kind == "bursts" { (n / 50).max(10) } else { n };
     let mut setup = vec![
         "(define (iota-list n) (let loop ((i 0) (acc '())) (if (= i n) acc (loop (+ i 1) (cons i acc)))))".to_string(),
         "(define sink 0)".to_string(),
